@@ -14,7 +14,7 @@ thread_local! {
 #[inline]
 fn on_alloc(size: usize) {
     let _ = CUR.try_with(|c| {
-        let v = c.get() + size as isize;
+        let v = c.get().saturating_add(size.min(isize::MAX as usize) as isize);
         c.set(v);
         let _ = PEAK.try_with(|p| {
             if v > p.get() {
@@ -31,7 +31,7 @@ fn on_alloc(size: usize) {
 
 #[inline]
 fn on_free(size: usize) {
-    let _ = CUR.try_with(|c| c.set(c.get() - size as isize));
+    let _ = CUR.try_with(|c| c.set(c.get().saturating_sub(size.min(isize::MAX as usize) as isize)));
 }
 
 unsafe impl GlobalAlloc for Counting {
